@@ -145,7 +145,7 @@ def stackDump {μ ι : Type} (M : MemOps μ ι) (mem : μ) (data : List ι) : St
 
 def traceLine {μ ι : Type} (M : MemOps μ ι) (m : Machine μ ι) : Option (String × Bool) :=
   if m.cur.pc ≥ progLen M m.cur then none else
-  match parseOp (M.read m.mem m.cur.prog) m.cur.pc with
+  match parseOpL (M.len m.cur.prog) (M.read m.mem m.cur.prog) m.cur.pc with
   | .error _ => none
   | .ok inst =>
     let d := if inst.data.isEmpty then "" else " " ++ hexx inst.data
